@@ -1897,7 +1897,10 @@ class NPProxy:
 
     def asarray(self, obj, dtype=None, **k):
         if isinstance(obj, SymArray):
-            return obj.astype(dtype) if dtype is not None and kind_of_dtype(dtype) != obj.kind else obj
+            # numpy returns the SAME array when the requested dtype is the array's (logical) dtype: aliasing matters (C18)
+            if dtype is None or kind_of_dtype(dtype) == obj.kind or np.dtype(dtype) == np.dtype(dtype_of_kind(obj.kind)):
+                return obj
+            return obj.astype(dtype)
         return self.array(obj, dtype=dtype)
 
     def ascontiguousarray(self, obj, dtype=None, **k):
